@@ -159,7 +159,8 @@ Proof.
   unfold parse_sps_poc, ser_sps_poc. cbv zeta.
   destruct (pic_order_cnt_type v =? 0) eqn:H0.
   { apply N.eqb_eq in H0. rewrite H0. change (0 =? 1) with false. cbn [andb].
-    plast ltac:(apply parses_ue). apply parses_ret. }
+    plast ltac:(apply parses_ue).
+    replace (12 <? log2_max_pic_order_cnt_lsb_minus4 v) with false by lia. apply parses_ret. }
   destruct (pic_order_cnt_type v =? 1) eqn:H1; cbn [andb].
   2:{ apply parses_ret. }
   pbind ltac:(apply parses_flag).
@@ -323,6 +324,7 @@ Proof.
   rewrite E1, E2, E3, E4.
   pbind ltac:(apply Hhigh).
   pbind ltac:(apply parses_ue).
+  replace (12 <? log2_max_frame_num_minus4 v) with false by lia.
   pbind ltac:(apply parses_ue).
   pbind ltac:(apply Hpoc).
   pbind ltac:(apply parses_ue).
